@@ -144,9 +144,12 @@ CLAIMED = {
          "204, 205, 304 and HTTP/1.0; the chunk framing of the first segment, http_chunk_append_* and http_chunk_close) against an RFC 9112 section 6.3/7.1 "
          "recipient: for every meta combination and every way the body is produced the recipient finds the end of the body where the server put it, "
          "gets exactly the produced bytes and leaves the rest of the connection untouched (chunked round-trip for all block lists), undelimited "
-         "responses close, no-body statuses carry nothing; percent-encoded control bytes never survive into the decoded path; tied by differential "
+         "responses close, no-body statuses carry nothing; percent-encoded control bytes never survive into the decoded path, and the path written into a "
+         "Location header (ENCODING_REL_URI, table re-read from buffer.c each run) is visible ASCII for every byte string, so the value of the directory "
+         "redirect cannot end its header line, and it decodes back to the path; tied by differential "
          "correspondence against the real lighttpd (3 network backends x 3 streaming modes x injected short writes/EAGAIN/EINTR x slow and tiny-buffer "
-         "readers x pipelines) with a strict response-stream parser and byte comparison with the files on disk",
+         "readers x pipelines) with a strict response-stream parser and byte comparison with the files on disk; the escape and the Location builder also run in-process "
+         "against the model on every byte and on injection-shaped paths",
     note="PARTIAL: header-block serialisation (h1_send_headers) and partial-write bookkeeping are covered by the correspondence and by C17's queue "
          "theorems, not by theorems here; kernel short writes are injected by an LD_PRELOAD shim (harness/faultio.c), not enumerated; hypothesis of the "
          "main theorem: a handler's own Content-Length is truthful; trusted: Coq kernel, extraction, lib/srv.py, python strict parser",
